@@ -438,4 +438,180 @@ theorem snarkOut_spec {ret r : Val} {s s' : St} (hg : s.guard = none) (h : snark
     intro v _
     exact reveal_eq _ v
 
+/-! ## `snarkOut` inside a guarded region (`runtime.guard` is some `g`)
+
+Inside a guarded region `add_constraint(v, w, y)` allocates a private dummy `d = v·w − y`, records
+`v·w = y + d` and `g·d = 0`.  For `x.val()` the asserted difference `x − out` has value 0, so the dummy
+is 0 WHATEVER the value of the guard: one public value, one private 0 and two constraints per secret. -/
+
+/-- `add_constraint` under a guard `g` -/
+theorem addConstraint_guarded_ok {v w y g : LinComb} {check : Bool} {s s' : St} {u : Unit} (hg : s.guard = some g)
+    (h : addConstraint v w y check s = .ok (u, s')) :
+    s' = s.ext [v.value * w.value - y.value]
+      [(v.lc, w.lc, (y.add (fw s.priv.length (v.value * w.value - y.value))).lc),
+       (g.lc, (fw s.priv.length (v.value * w.value - y.value)).lc, LC.zero)] := by
+  unfold addConstraint at h
+  rw [hg] at h
+  simp only at h
+  obtain ⟨d, s1, h1, hk⟩ := bind_ok.mp h
+  obtain ⟨u1, s2, h2, h3⟩ := bind_ok.mp hk
+  obtain ⟨rfl, rfl⟩ := privVal_ok h1
+  have e2 := addConstraintUnsafe_ok h2
+  subst e2
+  have e3 := addConstraintUnsafe_ok h3
+  subst e3
+  simp [LinComb.zero]
+
+/-- the constraints of revealing `xs` under the guard `g`: the first output is public wire `k`, the
+first dummy private wire `j` -/
+def revealConsG (g : LinComb) : Nat → Nat → List LinComb → List Constraint
+  | _, _, [] => []
+  | k, j, x :: xs =>
+    (LC.zero, LC.zero, ((x.sub ⟨x.value, [(Wire.pub k, 1)]⟩).add (fw j 0)).lc) ::
+      (g.lc, (fw j 0).lc, LC.zero) :: revealConsG g (k+1) (j+1) xs
+
+/-- reveal `xs` under the guard `g`: per secret one public value (its value), one private dummy 0, and the
+two constraints `0·0 = x − out + d`, `g·d = 0` -/
+def St.revealG (s : St) (g : LinComb) (xs : List LinComb) : St :=
+  { s with pub := s.pub ++ xs.map (·.value), priv := s.priv ++ List.replicate xs.length 0,
+           cons := s.cons ++ revealConsG g s.pub.length s.priv.length xs }
+
+theorem revealConsG_append (g : LinComb) : ∀ (k j : Nat) (a b : List LinComb),
+    revealConsG g k j (a ++ b) = revealConsG g k j a ++ revealConsG g (k + a.length) (j + a.length) b
+  | _, _, [], _ => by simp [revealConsG]
+  | k, j, x :: a, b => by
+    simp only [List.cons_append, revealConsG, List.length_cons, revealConsG_append g (k+1) (j+1) a b]
+    have e1 : k + 1 + a.length = k + (a.length + 1) := by omega
+    have e2 : j + 1 + a.length = j + (a.length + 1) := by omega
+    rw [e1, e2]
+
+theorem revealConsG_length (g : LinComb) : ∀ (k j : Nat) (a : List LinComb),
+    (revealConsG g k j a).length = 2 * a.length
+  | _, _, [] => rfl
+  | k, j, _ :: a => by simp [revealConsG, revealConsG_length g (k+1) (j+1) a]; omega
+
+@[simp] theorem St.revealG_nil (s : St) (g : LinComb) : s.revealG g [] = s := by simp [St.revealG, revealConsG]
+theorem St.revealG_revealG (s : St) (g : LinComb) (a b : List LinComb) :
+    (s.revealG g a).revealG g b = s.revealG g (a ++ b) := by
+  simp [St.revealG, revealConsG_append, List.append_assoc]
+@[simp] theorem St.revealG_guard (s : St) (g : LinComb) (a : List LinComb) : (s.revealG g a).guard = s.guard := rfl
+@[simp] theorem St.revealG_res (s : St) (g : LinComb) (a : List LinComb) :
+    (s.revealG g a).resolution = s.resolution := rfl
+
+/-- `x.val()` inside a guarded region: the value, one public wire, one private dummy 0, two constraints;
+nothing of this depends on the VALUE of the guard -/
+theorem valL_ok_guarded {x g : LinComb} {v : Int} {s s' : St} (hg : s.guard = some g)
+    (h : valL x s = .ok (v, s')) : v = x.value ∧ s' = s.revealG g [x] := by
+  unfold valL at h
+  obtain ⟨o, s1, h1, hk⟩ := bind_ok.mp h
+  obtain ⟨u, s2, h2, hk2⟩ := bind_ok.mp hk
+  obtain ⟨rfl, rfl⟩ := pure_ok' hk2
+  obtain ⟨rfl, rfl, -⟩ := pubVal_ok h1
+  unfold assertZero at h2
+  split at h2
+  · cases h2
+  · have := addConstraint_guarded_ok (s := { s with pub := s.pub ++ [x.value] }) hg h2
+    refine ⟨rfl, ?_⟩
+    rw [this]
+    simp [St.ext, St.revealG, revealConsG, LinComb.zero, LinComb.sub, LinComb.add, LinComb.neg, fw]
+
+def stepSelG (g : LinComb) (sel : Val → Option LinComb) (s : St) (v : Val) : St :=
+  match sel v with
+  | some x => s.revealG g [x]
+  | Option.none => s
+
+theorem foldl_stepSelG (g : LinComb) (sel : Val → Option LinComb) : ∀ (l : List Val) (s : St),
+    l.foldl (stepSelG g sel) s = s.revealG g (l.filterMap sel)
+  | [], s => by simp
+  | v :: l, s => by
+    rw [List.foldl_cons, foldl_stepSelG g sel l, List.filterMap_cons]
+    unfold stepSelG
+    cases sel v <;> simp [St.revealG_revealG]
+
+/-- the invariant of the output passes inside a guarded region: the guard stays `g`, fixed resolution -/
+def OutInvG (g : LinComb) (res : Nat) (s : St) : Prop := s.guard = some g ∧ s.resolution = res
+
+theorem outLc_leafG (g : LinComb) (res : Nat) (v : Val) (hv : v.isLeaf = true) (s : St) (r : Val) (s' : St)
+    (hI : OutInvG g res s) (h : outLc v s = .ok (r, s')) :
+    r.isLeaf = true ∧ id r = outLcE v ∧ s' = stepSelG g Val.lcOf? s v ∧ OutInvG g res s' := by
+  cases v with
+  | lc x =>
+    unfold outLc at h
+    obtain ⟨w, s1, h1, hk⟩ := bind_ok.mp h
+    obtain ⟨rfl, rfl⟩ := pure_ok' hk
+    obtain ⟨rfl, rfl⟩ := valL_ok_guarded hI.1 h1
+    exact ⟨rfl, rfl, rfl, hI⟩
+  | list _ => simp [Val.isLeaf] at hv
+  | tuple _ => simp [Val.isLeaf] at hv
+  | _ =>
+    unfold outLc at h
+    obtain ⟨rfl, rfl⟩ := pure_ok' h
+    exact ⟨hv, rfl, rfl, hI⟩
+
+theorem outFxp_leafG (g : LinComb) (res : Nat) (v : Val) (hv : v.isLeaf = true) (s : St) (r : Val) (s' : St)
+    (hI : OutInvG g res s) (h : outFxp v s = .ok (r, s')) :
+    r.isLeaf = true ∧ id r = outFxpE res v ∧ s' = stepSelG g Val.fxpOf? s v ∧ OutInvG g res s' := by
+  cases v with
+  | fxp x =>
+    unfold outFxp callMeth at h
+    simp only at h
+    obtain ⟨w, s1, h1, hk⟩ := bind_ok.mp h
+    obtain ⟨rfl, rfl⟩ := valL_ok_guarded hI.1 h1
+    rw [getRes_bind] at hk
+    split at hk
+    · exact (raise_ok.mp hk).elim
+    · obtain ⟨rfl, rfl⟩ := pure_ok' hk
+      exact ⟨rfl, by simp [outFxpE, hI.2], rfl, hI⟩
+  | list _ => simp [Val.isLeaf] at hv
+  | tuple _ => simp [Val.isLeaf] at hv
+  | _ =>
+    unfold outFxp at h
+    obtain ⟨rfl, rfl⟩ := pure_ok' h
+    exact ⟨hv, rfl, rfl, hI⟩
+
+theorem outLcb_leafG (g : LinComb) (res : Nat) (v : Val) (hv : v.isLeaf = true) (s : St) (r : Val) (s' : St)
+    (hI : OutInvG g res s) (h : outLcb v s = .ok (r, s')) :
+    r.isLeaf = true ∧ id r = outLcbE v ∧ s' = stepSelG g Val.lcbOf? s v ∧ OutInvG g res s' := by
+  cases v with
+  | lcb x =>
+    unfold outLcb callMeth at h
+    simp only at h
+    obtain ⟨w, s1, h1, hk⟩ := bind_ok.mp h
+    obtain ⟨rfl, rfl⟩ := pure_ok' hk
+    obtain ⟨rfl, rfl⟩ := valL_ok_guarded hI.1 h1
+    exact ⟨rfl, rfl, rfl, hI⟩
+  | list _ => simp [Val.isLeaf] at hv
+  | tuple _ => simp [Val.isLeaf] at hv
+  | _ =>
+    unfold outLcb at h
+    obtain ⟨rfl, rfl⟩ := pure_ok' h
+    exact ⟨hv, rfl, rfl, hI⟩
+
+/-- **`snarkOut` inside a guarded region**: as `snarkOut_spec`, with `St.revealG` in place of `St.reveal`:
+the same public values in the same order (pass by pass), whatever the value of the guard; each output
+additionally costs one private dummy (value 0) and its constraints are the guarded pair -/
+theorem snarkOut_spec_guarded {ret r : Val} {g : LinComb} {s s' : St} (hg : s.guard = some g)
+    (h : snarkOut ret s = .ok (r, s')) :
+    s' = s.revealG g (ret.leaves.filterMap Val.lcOf? ++ ret.leaves.filterMap Val.fxpOf? ++
+      ret.leaves.filterMap Val.lcbOf?) ∧
+    r.skel = ret.skel ∧ r.leaves = ret.leaves.map (reveal s.resolution) := by
+  unfold snarkOut at h
+  obtain ⟨r1, s1, h1, hk⟩ := bind_ok.mp h
+  obtain ⟨r2, s2, h2, h3⟩ := bind_ok.mp hk
+  obtain ⟨k1, l1, e1, i1⟩ := forEachIn_spec (outLc_leafG g s.resolution) ret s r1 s1 ⟨hg, rfl⟩ h1
+  obtain ⟨k2, l2, e2, i2⟩ := forEachIn_spec (outFxp_leafG g s.resolution) r1 s1 r2 s2 i1 h2
+  obtain ⟨k3, l3, e3, -⟩ := forEachIn_spec (outLcb_leafG g s.resolution) r2 s2 r s' i2 h3
+  simp only [List.map_id_fun, id_eq] at l1 l2 l3
+  have f2 : r1.leaves.filterMap Val.fxpOf? = ret.leaves.filterMap Val.fxpOf? := by
+    rw [l1, List.filterMap_map]; congr 1; funext v; cases v <;> rfl
+  have f3 : r2.leaves.filterMap Val.lcbOf? = ret.leaves.filterMap Val.lcbOf? := by
+    rw [l2, l1, List.map_map, List.filterMap_map]; congr 1; funext v; cases v <;> rfl
+  refine ⟨?_, by rw [k3, k2, k1], ?_⟩
+  · rw [e3, foldl_stepSelG, e2, foldl_stepSelG, e1, foldl_stepSelG, St.revealG_revealG, St.revealG_revealG,
+      f2, f3, List.append_assoc]
+  · rw [l3, l2, l1, List.map_map, List.map_map]
+    apply List.map_congr_left
+    intro v _
+    exact reveal_eq _ v
+
 end Pysnark
